@@ -1,7 +1,7 @@
 """C10 — AXI bursts are expanded and resized according to the AXI address rules."""
 import time
 import c10lib
-from c10lib import (Job, run_jobs, B2BInst, ConvArith, LanePathInst, FIXED, INCR, WRAP, RESERVED,
+from c10lib import (Job, run_jobs, B2BInst, ConvArith, ConvE2E, LanePathInst, FIXED, INCR, WRAP, RESERVED,
                     spec_addr, legal, burst_bytes, eff_burst)
 from explore import Disagreement, generic_search, search_failing_input
 
@@ -89,7 +89,10 @@ CONVS = (("up", 32, 64), ("up", 64, 128), ("up", 32, 128), ("up", 32, 256),
 
 
 def conv_jobs(quick):
-    return [Job("C", lambda kind=kind, a=a, b=b: ConvArith(kind, a, b)) for (kind, a, b) in CONVS]
+    J = [Job("C", lambda kind=kind, a=a, b=b: ConvArith(kind, a, b)) for (kind, a, b) in CONVS]
+    for (kind, a, b) in (CONVS[0], CONVS[2], CONVS[4], CONVS[6]) if quick else CONVS:
+        J.append(Job("E", lambda kind=kind, a=a, b=b: ConvE2E(kind, a, b)))
+    return J
 
 
 def spec_crosscheck(ctx):
@@ -181,9 +184,35 @@ def run_corpus(ctx):
     return dis
 
 
+def constants_check(ctx):
+    """The burst-type encodings of axi_common.py against the ones the model (`BURST_*` in Burst2Beat.lean) and the
+    oracle use."""
+    from litex.soc.interconnect.axi import axi_common as ac
+    have = (ac.BURST_FIXED, ac.BURST_INCR, ac.BURST_WRAP, ac.BURST_RESERVED)
+    ctx.cov.add_cases("axi_common burst encodings", 4, 4, exhaustive=True)
+    if have != (FIXED, INCR, WRAP, RESERVED):
+        return [{"instance": "axi_common", "kind": "constants", "impl": list(have), "model": [FIXED, INCR, WRAP, RESERVED]}]
+    return []
+
+
 def correspond(ctx):
     ctx.jobs = jobs(ctx.tier)
-    dis = run_corpus(ctx)
+    ctx.assumptions = [
+        "AXIBurst2Beat theorems are about the module driven by a protocol-legal AXI master (ax_burst.valid and the "
+        "request lines held until the handshake) - the master is part of the compared model `sys`; the bare module is "
+        "also compared open-loop with arbitrary inputs (instance Burst2Beat/aw32/open-loop)",
+        "b2b theorems: address width >= 12 and every offered burst legal per A3.4.1 (Legal); illegal bursts are "
+        "modelled and compared but not covered by the theorems",
+        "w_beats_down assumes the stream producer contract (Held) on the wide side",
+        "converter byte-preservation is proved only inside the regions of upconv_arith_partial / downconv_arith_partial; "
+        "outside them the four C10 known findings apply",
+    ]
+    ctx.extra_trusted = [
+        "harness/c10lib.py: Python transcription of AMBA AXI A3.4.1 used by the monitors, cross-checked against the "
+        "Lean axiSpecAddr/Legal/burstBytes (the definitions the theorems are stated against) on every run",
+        "data-channel model shared with C03 (LitexModel/Stream/Conv.lean: upConv/downConv)",
+    ]
+    dis = constants_check(ctx) + run_corpus(ctx)
     dis += list(run_jobs(ctx, ctx.jobs)) + spec_crosscheck(ctx)
     ctx.cov.notes.append("mode A on AXIBurst2Beat uses a state-dependent alphabet: all requests of the box are offered "
                          "in the clean idle state, only beat.ready varies while the master holds a request; idle states "
@@ -310,6 +339,22 @@ def probes(ctx):
 
 def replay(ctx, payload):
     fi = payload.get("failing_input") or {}
+    if "e2e" in fi:               # end-to-end burst through a converter
+        for (kind, a, b) in CONVS:
+            e = ConvE2E(kind, a, b)
+            if e.name == fi.get("instance"):
+                if fi["e2e"] == "write":
+                    m = e.run_write(tuple(fi["request"]), [tuple(x) for x in fi["wbeats"]], fi["stall_seed"])
+                else:
+                    m = e.run_read(tuple(fi["request"]), fi["stall_seed"])
+                if m:
+                    print(m)
+                    print("VIOLATION property=%s replay=(replayed)" % ctx.prop)
+                    return 1
+                print("burst no longer violates the property on the current tree")
+                return 0
+        print("instance %r not found" % fi.get("instance"))
+        return 2
     if "request" in fi:           # converter arithmetic
         for (kind, a, b) in CONVS:
             ca = ConvArith(kind, a, b)
